@@ -108,7 +108,7 @@ def shards(tier):
     step = -(-n9 // b["shards"])
     out += [["c09", 0, 0, lo, min(n9, lo + step)] for lo in range(0, n9, step)]
     n2 = len(_c02_lists(tier))
-    step = -(-n2 // 16)
+    step = -(-n2 // (16 if tier == "quick" else b["shards"]))
     out += [["c02", 0, 0, lo, min(n2, lo + step)] for lo in range(0, n2, step)]
     out.append(["kw", 0, 0, 0, len(keyword.kwlist)])
     out.append(["neg", 0, 0, 0, 0])
